@@ -501,6 +501,24 @@ func (c *Ctx) c18Fixed(cut string, sys fstest.MapFS, stmts []string, globals []s
 	return whole, false
 }
 
+// c18BlockLocals: top-level statements with block-scoped variables (for / if with an init clause) of different types in
+// successive statements: a variable declared by a later call starts fresh - it does not see the value or the type
+// an earlier call left in a frame slot of the same number
+func (c *Ctx) c18BlockLocals() {
+	for _, stmts := range [][]string{
+		{"g := 0", "for f := 0.5; f < 2; f++ { g++ }", "for n := 7; n < 8; n++ { h = n / 2 }", "println(g, h)", "h"},
+		{"g := 0", "for f := 0.5; f < 2; f++ { g++ }", "for n := 7; n < 8; n++ { println(n / 2) }", "g"},
+		{"x := 1", "for b := uint8(250); b > 249 && b < 255; b++ { x++ }", "for i := 300; i == 300; i++ { println(i, x) }", "x"},
+		{"s := \"\"", "if t := \"ab\"; len(t) > 1 { s = t }", "if k := 5; k > 1 { println(k / 2, s) }", "for q := 9; q < 10; q++ { println(q / 2) }", "s"},
+		{"w := 0.0", "for a := 1; a < 3; a++ { w += 0.5 }", "for z := 0.25; z < 1; z++ { w += z / 2 }", "for e := 9; e > 8; e-- { println(e / 2, w) }", "w"},
+	} {
+		c.Rep.Count("block-locals-top-level")
+		if whole, _ := c.c18Fixed("whole-vs-cut-block-locals", fstest.MapFS{}, stmts, nil); whole.err != "" {
+			c.Rep.Violate(Violation{Kind: "oracle", Cut: "whole-vs-cut-block-locals", Input: stmts, Impl: whole.err, Oracle: "evaluates as a whole"})
+		}
+	}
+}
+
 // c18LiteralTypes: function literals that declare local types. Every Eval call counts its lines from 1, so literals of
 // different calls share their position - and a literal is named by its position: the later one must not see the types
 // of the earlier one (enterFunc forgets them; the tie Gen.enterFuncDrops)
@@ -593,6 +611,7 @@ func (c *Ctx) c18OpenFindings() {
 func runC18(c *Ctx) error {
 	c.c18OpenFindings()
 	c.c18LiteralTypes()
+	c.c18BlockLocals()
 	c.c18Packages()
 	c.c18BuiltinNamed()
 	c.Rep.Rule = "eval: programs of 3..16 top-level statements of the model's kinds (:= / var definitions, = and += assignments, println, expression statements, functions incl. re-definition with late-bound globals, top-level for loops and ifs; 3% with a use before definition) evaluated whole, one statement per Eval and in a random cutting (chunks of 1..4), each compared with the model on the same cutting; whole-vs-cut: progen top-level programs (type, method and function declarations, helpers, variables of int/bool/string/slice/map/struct types, if/for/switch/range, multi-value calls, closures-free calls, expression statements, optional import) evaluated whole and in three cuttings; distinct = distinct program; non-trivial = more than 5 / 10 statements"
